@@ -102,9 +102,13 @@ def life_stage(work, res, tier, prefixes, replay=None):
             p["resume"] = case
             if why == "hang":
                 believed[0] = True
+            if why in ("hang", "deadlock"):
+                # (deadlock: the virtual-time bubble ended while goroutines of the node were still blocked for good - the
+                # runtime ends the process; the schedule is recorded as one whose background activity never ended)
                 p["hangs"] = p.get("hangs", 0) + 1
                 if p["hangs"] >= 3:
-                    log("lifecycle harness shard %d: three schedules hung; the rest of this shard is not executed" % p["i"])
+                    log("lifecycle harness shard %d: three schedules hung / left goroutines blocked for good; the rest of this "
+                        "shard is not executed" % p["i"])
                     res.cov["vacuous"] += 1
                     continue
             pend.append(p)
